@@ -167,6 +167,28 @@ def rf2d(cx, entry="rootfinder", method="newton", maxiter=1, f_tol=1e-3, x_tol=1
     return "silent"
 
 
+def exact_start(cx, entry="rootfinder", method="broyden1", complex_=False, shape=(2,)):
+    """the initial guess is already an exact solution (warm start): the call returns it silently with the shape and dtype of
+    the guess - real and complex unknowns"""
+    y0 = cx.sym("y0", shape, complex_=complex_)
+    c = (y0 * y0).detach().clone()
+    if entry == "rootfinder":
+        f = lambda y, c_: y * y - c_
+        call = lambda: rootfinder(f, y0, params=(c,), method=method)
+    else:
+        f = lambda y, c_: y * y - c_ + y
+        call = lambda: equilibrium(f, y0, params=(c,), method=method)
+    with Recorder(Warning) as rec:
+        with torch.no_grad():
+            y = call()
+    cx.claim_true("silent", not rec.warned, detail=str(rec.messages))
+    cx.claim_true("shape and dtype of the initial guess", tuple(y.shape) == tuple(y0.shape) and y.dtype == y0.dtype,
+                  detail="%s %s" % (tuple(y.shape), y.dtype))
+    if tuple(y.shape) == tuple(y0.shape):
+        cx.claim_eq("the exact solution is returned unchanged", y, y0)
+    return "ok"
+
+
 def descent(cx, method="gd", maxiter=2, step=0.25, extra=None):
     """gd/adam on the convex quadratic c*(y-r)^2 + d with 0 < 2*step*c < 1: silent return => f(y) <= f(y0)"""
     c = cx.scalar("c", lo=0.25, hi=1.5, positive=True)
@@ -212,6 +234,12 @@ def configs(tier):
     add("equilibrium/anderson_acc/it3", rf1d, entry="equilibrium", method="anderson_acc", maxiter=3, opts={"timeout_ms": 45000})
     for method, alpha, it in (("linearmixing", -1.0, 2), ("broyden1", -0.5, 1), ("newton", None, 1)):
         add("minimize/%s/it%d" % (method, it), rf1d, entry="minimize", method=method, maxiter=it, alpha=alpha)
+    for cplx in (False, True):
+        for method in ("broyden1", "newton", "linearmixing"):
+            add("exact_start/rootfinder/%s/%s" % (method, "complex" if cplx else "real"), exact_start, method=method, complex_=cplx)
+    add("exact_start/equilibrium/broyden2/complex", exact_start, entry="equilibrium", method="broyden2", complex_=True)
+    add("exact_start/equilibrium/anderson_acc/complex/shape(2,1)", exact_start, entry="equilibrium", method="anderson_acc",
+        complex_=True, shape=(2, 1))
     add("rootfinder2d/newton/affine", rf2d, entry="rootfinder", method="newton", maxiter=2)
     add("rootfinder2d/newton/affine/shape(2,1)", rf2d, entry="rootfinder", method="newton", maxiter=2, shape=(2, 1))
     add("rootfinder2d/linearmixing/affine/it1", rf2d, entry="rootfinder", method="linearmixing", maxiter=1, alpha=-0.5)
